@@ -261,6 +261,11 @@ func (c *connectClient) NewConn(
 	duplexCall := newDuplexHTTPCall(ctx, c.HTTPClient, c.URL, spec, header)
 	var conn StreamingClientConn
 	if spec.StreamType == StreamTypeUnary {
+		// The marshaler names the request's encoding once it knows whether this
+		// message gets compressed: what it decided for an earlier message sent
+		// with the same header map (a Request that is being re-sent) doesn't
+		// apply.
+		delete(header, connectUnaryHeaderCompression)
 		unaryConn := &connectUnaryClientConn{
 			spec:             spec,
 			duplexCall:       duplexCall,
